@@ -80,6 +80,13 @@ pub struct Context<A> {
 
 impl<A> Drop for Context<A> {
     fn drop(&mut self) {
+        self.abort_tasks();
+    }
+}
+
+impl<A> Context<A> {
+    /// Abort all intervals and delayed tasks registered so far.
+    pub(crate) fn abort_tasks(&mut self) {
         for task in self.tasks.drain(..) {
             task.abort();
         }
